@@ -1,4 +1,4 @@
-import TwistedProps.C20.Final
+import TwistedProps.C20.Late
 /-!
 C20 — HTTP server responses are framed exactly and headers cannot be injected.
 
@@ -13,9 +13,14 @@ consistent with the body.
 Here: `Response.run` is the model of `Request`/`Headers`/`HTTPChannel.writeHeaders` (tied to the
 code on every run), `Rfc9112.parseResponse` the independent reader (tied to h11 on every run).
 The quantifiers are: every request context (HTTP/1.0 or 1.1, HEAD or not, `Connection: close` or
-not), every history `setup` of set-up calls (setResponseCode / setHeader / addRawHeader / addCookie
-in any number and order, every argument any `bytes` or any `str`, refused calls included), every
-list of writes.  Preconditions (`WellFormed`, all decidable, all from the statement's own reading):
+not), every history `setup` of set-up calls (setResponseCode / setHeader / addRawHeader /
+setRawHeaders with any number of values / removeHeader / addCookie in any number and order, every
+argument any `bytes` or any `str`, refused calls included), every list of writes
+(`emits_one_wellformed_response`); then with set-up calls between the writes
+(`…_interleaved`) and finally every history `pre ++ finish :: tail` whatever `pre` (without finish)
+and `tail` are (`…_any_history`).  Names: `name_accepted_iff_token`,
+`almost_token_refused_by_every_call` (+ text), `token_then_one_LF_refused`,
+`refused_names_leave_no_trace`, `emitted_names_are_tokens`, `head_has_no_stray_line_break`.  Preconditions (`WellFormed`, all decidable, all from the statement's own reading):
 the status code is a three-digit final status; the application does not set Transfer-Encoding
 itself; a Content-Length it sets is single and truthful.
 -/
@@ -153,6 +158,106 @@ theorem emits_one_wellformed_response (p11 head cc : Bool) (setup : List Op) (ws
   rw [hh] at this
   exact this
 
+/-- **C20 with set-up calls sprinkled between the writes.**  Any set-up history, a first write, then
+    any mix of further writes and set-up calls (accepted or refused: `setHeader`, `setRawHeaders`,
+    `removeHeader`, `addCookie`, `setResponseCode` … after the head has gone out), then finish: the
+    reader sees exactly the response of the request as it stood at the first write, with all the
+    writes as body; the late calls change nothing on the wire. -/
+theorem emits_one_wellformed_response_interleaved (p11 head cc : Bool) (setup : List Op) (d : Bytes) (mixed : List Op)
+    (hsetup : ∀ op ∈ setup, isSetup op = true) (hnf : Op.finish ∉ mixed)
+    (wf : WellFormed (run (init p11 head cc) setup).1 (d :: writesOf mixed)) :
+    let s := (run (init p11 head cc) setup).1
+    let r := (run (init p11 head cc) (setup ++ (Op.write d :: (mixed ++ [Op.finish])))).1
+    parseResponse head r.closed r.out =
+      some ⟨s.code, fieldContent s.reason, wireFields (finalHeaders s),
+            if head || noBodyCode s.code then [] else (d :: writesOf mixed).flatten⟩ := by
+  intro s r
+  have base := emits_one_wellformed_response p11 head cc setup (d :: writesOf mixed) hsetup wf
+  simp only at base
+  obtain ⟨hi1, hi2⟩ := init_fresh p11 head cc
+  obtain ⟨hs, _⟩ := runFrom_setup setup hsetup p11 head cc _ 0 hi1 hi2
+  have hw : wire r = wire (run (init p11 head cc) (setup ++ ((d :: writesOf mixed).map Op.write ++ [Op.finish]))).1 := by
+    show wire (runFrom _ 0 _).1 = wire (runFrom _ 0 _).1
+    rw [runFrom_append_fst, runFrom_append_fst, List.map_cons, List.cons_append, runFrom_cons_fst, runFrom_cons_fst]
+    have := runFrom_late (mixed ++ [Op.finish]) _ _ (0 + setup.length + 1) (0 + setup.length + 1) rfl
+      (write_fresh_started s hs d)
+    rw [List.filter_append, filter_nonsetup mixed hnf] at this
+    exact this
+  simp only [wire, Prod.mk.injEq] at hw
+  rw [hw.2.2.2.2.2.2.2.1, hw.2.2.2.2.2.2.2.2]
+  exact base
+
+/-- **Nothing after finish reaches the wire**: whatever is called once the request is finished
+    (writes — they raise —, a second finish, set-up calls of any kind), the bytes written and the
+    state of the connection stay what they were. -/
+theorem calls_after_finish_change_nothing (r0 : Req) (pre tail : List Op) (hf : (run r0 pre).1.finished = true) :
+    (run r0 (pre ++ tail)).1.out = (run r0 pre).1.out ∧ (run r0 (pre ++ tail)).1.closed = (run r0 pre).1.closed := by
+  have : wire (run r0 (pre ++ tail)).1 = wire (run r0 pre).1 := by
+    show wire (runFrom _ 0 _).1 = _
+    rw [runFrom_append_fst]
+    exact runFrom_finished tail _ _ hf
+  simp only [wire, Prod.mk.injEq] at this
+  exact ⟨this.2.2.2.2.2.2.2.1, this.2.2.2.2.2.2.2.2⟩
+
+/-- **C20 over every history that finishes.**  Any list of calls `pre` without finish (set-up calls
+    and writes in any order and number, accepted or refused), then finish, then any calls at all
+    (`tail`: writes, a second finish, more set-up calls).  The bytes on the wire are exactly one
+    response: status, reason and fields are those of the request as the set-up calls BEFORE THE FIRST
+    WRITE left it (`pre.takeWhile isSetup`), the body is the concatenation of all writes of `pre`.
+    Nothing called after the first write changes the head; nothing called after finish changes anything. -/
+theorem emits_one_wellformed_response_any_history (p11 head cc : Bool) (pre tail : List Op)
+    (hnf : Op.finish ∉ pre)
+    (wf : WellFormed (run (init p11 head cc) (pre.takeWhile isSetup)).1 (writesOf pre)) :
+    let s := (run (init p11 head cc) (pre.takeWhile isSetup)).1
+    let r := (run (init p11 head cc) (pre ++ Op.finish :: tail)).1
+    parseResponse head r.closed r.out =
+      some ⟨s.code, fieldContent s.reason, wireFields (finalHeaders s),
+            if head || noBodyCode s.code then [] else (writesOf pre).flatten⟩ := by
+  intro s r
+  have hsplit : pre = pre.takeWhile isSetup ++ pre.dropWhile isSetup := (List.takeWhile_append_dropWhile).symm
+  have hsetup : ∀ op ∈ pre.takeWhile isSetup, isSetup op = true := takeWhile_all isSetup pre
+  have hr : r = (run (init p11 head cc) ((pre ++ [Op.finish]) ++ tail)).1 := by
+    show (run _ _).1 = _; simp
+  obtain ⟨ho, hc⟩ := calls_after_finish_change_nothing (init p11 head cc) (pre ++ [Op.finish]) tail
+    (run_snoc_finish_finished _ _)
+  rw [hr, ho, hc]
+  cases hd : pre.dropWhile isSetup with
+  | nil =>
+    have hpre : pre = pre.takeWhile isSetup := by rw [hd, List.append_nil] at hsplit; exact hsplit
+    have hw : writesOf pre = [] := by rw [hpre]; exact writesOf_setup _ hsetup
+    rw [hw] at wf ⊢
+    have base := emits_one_wellformed_response p11 head cc (pre.takeWhile isSetup) [] hsetup wf
+    simp only [List.map_nil, List.nil_append] at base
+    have e : pre ++ [Op.finish] = pre.takeWhile isSetup ++ [Op.finish] := congrArg (· ++ [Op.finish]) hpre
+    rw [e]
+    exact base
+  | cons op mixed =>
+    have hnot : isSetup op = false := dropWhile_head isSetup pre op mixed hd
+    have hmem : ∀ o ∈ op :: mixed, o ∈ pre := fun o h => by
+      rw [hsplit, hd]; exact List.mem_append_right _ h
+    have hopnf : op ≠ Op.finish := fun e => hnf (e ▸ hmem op (by simp))
+    have hnf' : Op.finish ∉ mixed := fun h => hnf (hmem _ (List.mem_cons_of_mem _ h))
+    cases op with
+    | finish => exact absurd rfl hopnf
+    | write d =>
+      have hw : writesOf pre = d :: writesOf mixed := by
+        rw [hsplit, hd, writesOf_append, writesOf_setup _ hsetup]
+        simp [writesOf]
+      rw [hw] at wf ⊢
+      have base := emits_one_wellformed_response_interleaved p11 head cc (pre.takeWhile isSetup) d mixed hsetup hnf' wf
+      simp only at base
+      have e : pre ++ [Op.finish] = pre.takeWhile isSetup ++ (Op.write d :: (mixed ++ [Op.finish])) := by
+        conv => lhs; rw [hsplit, hd]
+        simp
+      rw [e]
+      exact base
+    | setCode _ _ => simp [isSetup] at hnot
+    | setHeader _ _ => simp [isSetup] at hnot
+    | addHeader _ _ => simp [isSetup] at hnot
+    | setRaw _ _ => simp [isSetup] at hnot
+    | remove _ => simp [isSetup] at hnot
+    | addCookie _ _ _ => simp [isSetup] at hnot
+
 /-- **No header injection**: every field a reader finds was stored under that name by the
     application (or is one of `Transfer-Encoding: chunked`, `Connection: close`, `Set-Cookie`
     from `addCookie`), one field per stored value — whatever bytes the values contain. -/
@@ -218,6 +323,104 @@ theorem written_content_safe (b : Bytes) :
     apply forall_uint8; decide +kernel
   exact ⟨fun c hc => (key c).1 (fieldContent_ok b c hc), fun h => fieldContent_id b fun c hc => (key c).2 (h c hc)⟩
 
+/-! ### names: the whole class "a token with one foreign byte", every naming call, bytes and text -/
+
+/-- **Almost-token names are refused by every call that names a header** (`setHeader`,
+    `addRawHeader`, `setRawHeaders`, `removeHeader`): a `bytes` name containing one byte that is not
+    a tchar — at its end (`b"Name\n"`), at its start or inside, whatever surrounds it — raises
+    `InvalidHeaderName` and leaves the request exactly as it was. -/
+theorem almost_token_refused_by_every_call (s : Req) (op : Op) (a b : Bytes) (c : UInt8) (hc : isTchar c = false)
+    (hop : namedBy op = some (.b (a ++ c :: b))) : step s op = (s, some .invalidHeaderName) :=
+  step_bad_name s op _ hop _ (encodeName_refuses _ (foreign_byte_not_token a b c hc))
+
+/-- the same for `str` names: one code point that is not a Latin-1 tchar (LF, CR, NEL, U+2028, 'é',
+    '²', U+212A …) anywhere in the name; the call raises and leaves the request as it was -/
+theorem text_almost_token_refused_by_every_call (s : Req) (op : Op) (a b : List Nat) (c : Nat)
+    (hc : ¬ (c < 256 ∧ isTchar (UInt8.ofNat c) = true))
+    (hop : namedBy op = some (.t (a ++ c :: b))) : ∃ e, step s op = (s, some e) := by
+  obtain ⟨e, he⟩ := text_foreign_refused a b c hc
+  exact ⟨e, step_bad_name s op _ hop e he⟩
+
+/-- the instance a validator written as `re.compile(b"[tchar]+$").match` gets wrong: a token
+    followed by exactly one LF, as bytes and as text, through each of the four calls -/
+theorem token_then_one_LF_refused (s : Req) (t : Bytes) (cps : List Nat) (v : Str) (vs : List Str) :
+    step s (.setHeader (.b (t ++ [10])) v) = (s, some .invalidHeaderName) ∧
+    step s (.addHeader (.b (t ++ [10])) v) = (s, some .invalidHeaderName) ∧
+    step s (.setRaw (.b (t ++ [10])) vs) = (s, some .invalidHeaderName) ∧
+    step s (.remove (.b (t ++ [10]))) = (s, some .invalidHeaderName) ∧
+    (∃ e, step s (.setHeader (.t (cps ++ [10])) v) = (s, some e)) ∧
+    (∃ e, step s (.addHeader (.t (cps ++ [10])) v) = (s, some e)) ∧
+    (∃ e, step s (.setRaw (.t (cps ++ [10])) vs) = (s, some e)) ∧
+    (∃ e, step s (.remove (.t (cps ++ [10]))) = (s, some e)) :=
+  ⟨almost_token_refused_by_every_call s _ t [] 10 (by decide) rfl,
+   almost_token_refused_by_every_call s _ t [] 10 (by decide) rfl,
+   almost_token_refused_by_every_call s _ t [] 10 (by decide) rfl,
+   almost_token_refused_by_every_call s _ t [] 10 (by decide) rfl,
+   text_almost_token_refused_by_every_call s _ cps [] 10 (by decide) rfl,
+   text_almost_token_refused_by_every_call s _ cps [] 10 (by decide) rfl,
+   text_almost_token_refused_by_every_call s _ cps [] 10 (by decide) rfl,
+   text_almost_token_refused_by_every_call s _ cps [] 10 (by decide) rfl⟩
+
+/-- **A name is accepted exactly when it is a token** (bytes, or text that is Latin-1 and reads as
+    one), and then it is stored under its canonical spelling; every other name makes the call raise
+    with the request unchanged — for every call that names a header. -/
+theorem name_accepted_iff_token (name : Str) :
+    (∀ n, encodeName name = .ok n ↔ ∃ x, nameBytes name = some x ∧ isToken x = true ∧ n = canonical x) ∧
+    (∀ (s : Req) (op : Op) (e : Err), namedBy op = some name → encodeName name = .error e → step s op = (s, some e)) :=
+  ⟨encodeName_ok_iff name, fun s op e hop he => step_bad_name s op name hop e he⟩
+
+/-- **Refused names leave no trace, in any history** (any interleaving with writes and finish, any
+    request state): the request after the history is the request after the history with every
+    refused naming call deleted — so the bytes written are the same too. -/
+theorem refused_names_leave_no_trace (r : Req) (ops : List Op) :
+    (run r ops).1 = (run r (ops.filter fun op => !badName op)).1 :=
+  runFrom_filter_bad ops r 0 0
+
+/-- … and every one of them is reported to the caller (the call at that index raised) -/
+theorem refused_names_are_reported (r : Req) (ops : List Op) (i : Nat) (op : Op) (h : ops[i]? = some op)
+    (hb : badName op = true) : ∃ e, (i, e) ∈ (run r ops).2 := by
+  have := runFrom_reports_bad ops r 0 i op h hb
+  simpa [run] using this
+
+/-- **Every field name on the wire is a token**: whatever the set-up history was, the names a reader
+    finds are tokens (so contain no LF, CR, SP, colon, control or 8-bit byte). -/
+theorem emitted_names_are_tokens (s : Req) (hs : Fresh s) :
+    ∀ f ∈ wireFields (finalHeaders s), isToken f.1 = true ∧ ∀ c ∈ f.1, 33 ≤ c ∧ c ≤ 126 ∧ c ≠ 58 := by
+  intro f hf
+  obtain ⟨p, hp, v, _, rfl⟩ := fields_come_from_dict _ f hf
+  have ht := token_map_lower p.1 (canonKey_token _ ((finalHeaders_ok s hs).1 p hp))
+  refine ⟨ht, fun c hc => ?_⟩
+  have := tchar_visible c (((isToken_iff _).1 ht).2 c hc)
+  exact ⟨this.1, this.2.1, this.2.2.1⟩
+
+/-- **The head, byte by byte**: status line and one line per stored value, each ended by CR LF,
+    then the empty line; no line contains a CR or an LF of its own — there is no bare LF and no
+    extra line in the head, whatever names, values and reason the history passed. -/
+theorem head_has_no_stray_line_break (s : Req) (hs : Fresh s) (h1 : 100 ≤ s.code) (h2 : s.code ≤ 999) :
+    ∃ lines : List Bytes,
+      writeHeaders s.proto11 s.code s.reason (finalHeaders s) = (lines.map (· ++ [13, 10])).flatten ++ [13, 10] ∧
+      lines.length = 1 + (wireFields (finalHeaders s)).length ∧
+      ∀ l ∈ lines, ∀ c ∈ l, c ≠ 10 ∧ c ≠ 13 := by
+  refine ⟨((if s.proto11 then bs "HTTP/1.1" else bs "HTTP/1.0") ++ [SP] ++ decimal s.code ++ [SP] ++ fieldContent s.reason) :: fieldLineList (finalHeaders s), ?_, ?_, ?_⟩
+  · have := writeHeaders_lines s.proto11 s.code s.reason (finalHeaders s) []
+    simpa using this
+  · simp [fieldLineList_length]; omega
+  · intro l hl
+    rcases List.mem_cons.1 hl with rfl | hl
+    · exact clean_statusLine _ _ _ h1 h2
+    · exact clean_fieldLineList _ (finalHeaders_ok s hs).1 l hl
+
+/-- **What `setRawHeaders` stores**: every value with its line breaks replaced, in order, under the
+    canonical name, replacing what was there; **what `removeHeader` leaves**: nothing under that name. -/
+theorem setRaw_stores (s : Req) (x : Bytes) (vs : List Bytes) (h : isToken x = true) :
+    (step s (.setRaw (.b x) (vs.map .b))).2 = none ∧
+    dget (step s (.setRaw (.b x) (vs.map .b))).1.headers (canonical x) = some (vs.map sanitize) := by
+  simp [step, encodeName, h, encValues_bytes, dget_dset]
+
+theorem remove_removes (s : Req) (x : Bytes) (h : isToken x = true) :
+    (step s (.remove (.b x))).2 = none ∧ dget (step s (.remove (.b x))).1.headers (canonical x) = none := by
+  simp [step, encodeName, h, dget_dremove_self]
+
 /-! ### Non-vacuity: concrete hostile histories -/
 
 /-- reason phrase and value try to inject a header line and a body; one name is invalid; the
@@ -271,5 +474,62 @@ example : isToken (bs "a b") = false ∧ isToken (bs "X-A\r\nY") = false ∧ isT
     canonical (bs "x-a") = bs "X-A" ∧ canonical (bs "etag") = bs "ETag" := by decide
 example : fieldContent (bs "a\r\nb\rc\nd\n") = bs "a b c d" ∧ fieldContent [97, 0, 11, 12, 98] = bs "a   b" := by decide
 example : (wireFields [(bs "X-A", [bs "1", bs " 2 "]), (bs "Empty", [])]).length = 2 := by decide
+
+-- the enlarged space: almost-token names (bytes and text, every naming call), setRawHeaders with several
+-- values / none, removeHeader, interleaved with accepted calls
+def exSetup2 : List Op :=
+  [.setHeader (.b (bs "X-Foo")) (.b (bs "kept\n")),
+   .setHeader (.b (bs "X-Foo\n")) (.b (bs "v")),
+   .addHeader (.t [88, 45, 70, 111, 111, 10]) (.b (bs "v")),
+   .setRaw (.b (bs "Set-Cookie\n")) [.b (bs "a=b")],
+   .remove (.b (bs "X-Foo\n")),
+   .setHeader (.t [88, 45, 70, 111, 111, 0x2028]) (.b (bs "v")),
+   .setHeader (.b (bs "\nX-Foo")) (.b (bs "v")),
+   .setHeader (.b (bs "X-\rFoo")) (.b (bs "v")),
+   .setRaw (.b (bs "x-b")) [.b (bs "1\n"), .t [50, 13, 10, 88, 58, 32, 121], .b (bs "\n3")],
+   .setRaw (.b (bs "content-length")) [],
+   .setHeader (.b (bs "X-Gone")) (.b (bs "1")),
+   .remove (.t [120, 45, 103, 111, 110, 101])]
+
+example : ∀ op ∈ exSetup2, isSetup op = true := by decide
+example : (exSetup2.filter fun op => !badName op).length = 5 := by decide
+example : (run (init true false false) exSetup2).2 =
+    [(1, .invalidHeaderName), (2, .invalidHeaderName), (3, .invalidHeaderName), (4, .invalidHeaderName),
+     (5, .unicodeEncode), (6, .invalidHeaderName), (7, .invalidHeaderName)] := by decide +kernel
+example : parseResponse false false
+    (run (init true false false) (exSetup2 ++ ([bs "abc"].map Op.write ++ [Op.finish]))).1.out =
+    some ⟨200, bs "OK",
+          [(bs "x-foo", bs "kept"), (bs "x-b", bs "1"), (bs "x-b", bs "2 X: y"), (bs "x-b", bs "3"),
+           (bs "transfer-encoding", bs "chunked")],
+          bs "abc"⟩ := by decide +kernel
+example : isToken (bs "X-Foo\n") = false ∧ isToken (bs "X-Foo") = true ∧ isTchar 10 = false ∧ isTchar 13 = false ∧
+    isTchar 0x85 = false ∧ isTchar 32 = false ∧ isTchar 58 = false := by decide
+example : ¬ (0x2028 < 256 ∧ isTchar (UInt8.ofNat 0x2028) = true) ∧ ¬ (0x141 < 256 ∧ isTchar (UInt8.ofNat 0x141) = true) ∧
+    isTchar (UInt8.ofNat 0x141) = true := by decide
+
+-- set-up calls between the writes (a header set, a name with a trailing LF, a status change, a cookie, a removal
+-- after the head has gone out): same response as without them
+example : Op.finish ∉ [Op.setHeader (.b (bs "X-Late")) (.b (bs "1")), .write (bs "de"), .setHeader (.b (bs "X-Late\n")) (.b (bs "1")),
+    .setCode 404 none, .remove (.b (bs "x-foo")), .write [], .addCookie (.b (bs "k")) (.b (bs "v")) {}, .write (bs "f")] := by decide
+example : parseResponse false false
+    (run (init true false false) (exSetup2 ++ (Op.write (bs "abc") ::
+      ([Op.setHeader (.b (bs "X-Late")) (.b (bs "1")), .write (bs "de"), .setHeader (.b (bs "X-Late\n")) (.b (bs "1")),
+        .setCode 404 none, .remove (.b (bs "x-foo")), .write [], .addCookie (.b (bs "k")) (.b (bs "v")) {}, .write (bs "f")]
+        ++ [Op.finish])))).1.out =
+    some ⟨200, bs "OK",
+          [(bs "x-foo", bs "kept"), (bs "x-b", bs "1"), (bs "x-b", bs "2 X: y"), (bs "x-b", bs "3"),
+           (bs "transfer-encoding", bs "chunked")],
+          bs "abcdef"⟩ := by decide +kernel
+
+-- any history: set-up, writes and late set-up calls mixed, finish, then more calls
+example : parseResponse false false
+    (run (init true false false)
+      ([Op.setHeader (.b (bs "X-A\n")) (.b (bs "0")), .setHeader (.b (bs "x-a")) (.b (bs "1\n")), .write (bs "ab"),
+        .setHeader (.b (bs "x-a")) (.b (bs "2")), .setCode 500 none, .write (bs "c")]
+       ++ Op.finish :: [.write (bs "zz"), .finish, .setHeader (.b (bs "X-B")) (.b (bs "3"))])).1.out =
+    some ⟨200, bs "OK", [(bs "x-a", bs "1"), (bs "transfer-encoding", bs "chunked")], bs "abc"⟩ := by decide +kernel
+example : writesOf [Op.setHeader (.b (bs "x-a")) (.b (bs "1\n")), .write (bs "ab"), .setCode 500 none, .write (bs "c")] = [bs "ab", bs "c"] ∧
+    [Op.setHeader (.b (bs "x-a")) (.b (bs "1\n")), .write (bs "ab"), .setCode 500 none, .write (bs "c")].takeWhile isSetup =
+      [Op.setHeader (.b (bs "x-a")) (.b (bs "1\n"))] := by decide
 
 end TwistedProps.C20
